@@ -265,8 +265,12 @@ func (x *Runner) Exec(op string) string {
 			return "err"
 		}
 		if twinEnabled {
-			x.buildTwin()
-			x.settingsOracle()
+			if twinMode != "settings" {
+				x.buildTwin()
+			}
+			if twinMode != "validators" {
+				x.settingsOracle()
+			}
 		}
 
 		return "ok"
